@@ -21,7 +21,7 @@ V2(x) == IF x % 2 = 1 THEN 0 ELSE 1 + V2(x \div 2)
 \* (a*b) mod M for a, b, M < 2^17 without exceeding 2^31
 MulMod(a, b, M) == (((a * (b \div 256)) % M) * 256 + a * (b % 256)) % M
 
-Min(a, b) == IF a < b THEN a ELSE b
-Max(a, b) == IF a < b THEN b ELSE a
+Min2(a, b) == IF a < b THEN a ELSE b
+Max2(a, b) == IF a < b THEN b ELSE a
 Abs(x) == IF x < 0 THEN -x ELSE x
 =============================================================================
